@@ -28,10 +28,10 @@ theorem setAliasIn_names (path al : Str) (l : List Pkg) :
     simp only [setAliasIn]
     split <;> simp [ih]
 
-theorem resolveStep_paths (o : Ord) (deeper : RS → Str → Str → Option RS) (lvl : Nat)
+theorem resolveStep_paths (o : Ord) (deeper : RS → Str → Str → Option RS) (lvl : Nat) (skip : Option Str)
     (hd : ∀ s s' p q, deeper s p q = some s' →
       s'.pend.path = s.pend.path ∧ s'.imps.map (·.path) = s.imps.map (·.path))
-    (s s' : RS) (p : Str) (h : resolveStep o deeper lvl s p = some s') :
+    (s s' : RS) (p : Str) (h : resolveStep o deeper lvl skip s p = some s') :
     s'.pend.path = s.pend.path ∧ s'.imps.map (·.path) = s.imps.map (·.path) := by
   unfold resolveStep at h
   split at h
@@ -56,12 +56,12 @@ theorem resolve_paths (o : Ord) :
     · have hd : ∀ s s' p q, (fun s p q => resolve o n s p q (lvl + 1)) s p q = some s' →
           s'.pend.path = s.pend.path ∧ s'.imps.map (·.path) = s.imps.map (·.path) :=
         fun s s' p q hh => ih s s' p q (lvl + 1) hh
-      cases h1 : resolveStep o (fun s p q => resolve o n s p q (lvl + 1)) lvl s a with
+      cases h1 : resolveStep o (fun s p q => resolve o n s p q (lvl + 1)) lvl (some b) s a with
       | none => simp [h1] at h
       | some s1 =>
         simp [h1] at h
-        have r1 := resolveStep_paths o _ lvl hd s s1 a h1
-        have r2 := resolveStep_paths o _ lvl hd s1 s' b h
+        have r1 := resolveStep_paths o _ lvl (some b) hd s s1 a h1
+        have r2 := resolveStep_paths o _ lvl none hd s1 s' b h
         exact ⟨r2.1.trans r1.1, r2.2.trans r1.2⟩
 
 /-- paths of the registry after `AddImport`: unchanged, or the new stripped path appended -/
